@@ -123,7 +123,7 @@ Proof.
     pose proof (exact_d_frame st m t src port) as Hfr.
     destruct (dispatch_exact_d st m t src port) as [st1 o1]. simpl in *.
     destruct (match_exactly_once st1 m t src port HI1) as [Hnd Hin].
-    unfold dispatch_match_d in *. destruct (dispatch_keys st1 (act_match st1) m t src port) as [st2 o2]. simpl in *.
+    destruct (dispatch_match_d st1 m t src port) as [st2 o2]. simpl in *.
     rewrite map_app. apply NoDup_app_disj.
     + rewrite Hex. apply NoDup_filter, (inv_nodup st HI).
     + assumption.
@@ -138,7 +138,7 @@ Proof.
     pose proof (exact_d_frame st m t src port id HI) as Hfr.
     destruct (dispatch_exact_d st m t src port) as [st1 o1]. simpl in *.
     destruct (match_exactly_once st1 m t src port HI1) as [_ Hin].
-    unfold dispatch_match_d in *. destruct (dispatch_keys st1 (act_match st1) m t src port) as [st2 o2]. simpl in *.
+    destruct (dispatch_match_d st1 m t src port) as [st2 o2]. simpl in *.
     rewrite map_app, in_app_iff, Hex, (Hin id), Hfr, filter_In, (fires_m_must st ts m src port id Hp), fires_exact_must.
     unfold must_fire. split.
     + intros [[_ (r & E & H1 & H2 & H3 & H4)] | (r & E & H1 & H2 & H3 & H4)]; exists r; rewrite H2; auto.
@@ -149,11 +149,18 @@ Qed.
 
 (* an address that is not a well-formed pattern (re.error) fires no matching responder, and the
    exact dispatcher is unaffected *)
+Lemma reg_entries_nil : forall st, reg_entries st [] = [].
+Proof.
+  intro st. unfold reg_entries. induction (cmdp st) as [| id l IH]; [reflexivity|].
+  cbn [flat_map]. rewrite IH, app_nil_r. destruct (nth_error (resps st) id) as [r|]; [|reflexivity].
+  simpl. rewrite andb_false_r. reflexivity.
+Qed.
 Lemma reerror_fires_nothing : forall st m t src port,
   (forall k, osc_rematch (m_addr m) k = MReError) -> dispatch_match_d st m t src port = (st, []).
 Proof.
-  intros st m t src port H. unfold dispatch_match_d. destruct (act_match st) as [| [k l] ks]; simpl; [reflexivity|].
-  rewrite (H k). reflexivity.
+  intros st m t src port H. unfold dispatch_match_d. destruct (act_match st) as [| [k l] ks]; simpl.
+  - rewrite reg_entries_nil. reflexivity.
+  - rewrite (H k). reflexivity.
 Qed.
 Lemma rematch_error_any_key : forall p k k', osc_rematch p k = MReError -> osc_rematch p k' = MReError.
 Proof.
@@ -218,25 +225,6 @@ Proof.
     destruct (IH1 i Hi) as (w' & Hw' & Hid & Hoff). exists w'. repeat split; [right; assumption | assumption | assumption].
 Qed.
 
-Lemma dispatch_keys_oneshot_off : forall ks st m t src port,
-  forall i, In i (snd (dispatch_keys st ks m t src port)) ->
-  exists k l w, In (k, l) ks /\ In w l /\ i_id i = w_id w /\
-            (forall g, w_func w = FOneShot g -> enabled (fst (dispatch_keys st ks m t src port)) (w_id w) = false).
-Proof.
-  induction ks as [| [k l] ks IH]; intros st m t src port i Hi; simpl in *; [contradiction|].
-  destruct (osc_rematch (m_addr m) k); simpl in *; try contradiction.
-  - pose proof (call_all_oneshot_off l st m t src port) as H1.
-    destruct (call_all st l m t src port) as [st1 o1]. simpl in *.
-    pose proof (IH st1 m t src port) as H2. destruct (dispatch_keys_spec ks st1 m t src port) as (_ & Hmono & _).
-    destruct (dispatch_keys st1 ks m t src port) as [st2 o2]. simpl in *.
-    apply in_app_or in Hi as [Hi | Hi].
-    + destruct (H1 i Hi) as (w & Hw & Hid & Hoff). exists k, l, w. repeat split; [left; reflexivity | assumption | assumption|].
-      intros g Hg. destruct (enabled st2 (w_id w)) eqn:E; [|reflexivity]. apply Hmono in E. rewrite (Hoff g Hg) in E. discriminate.
-    + destruct (H2 i Hi) as (k' & l' & w & Hkl & Hw & Hid & Hoff). exists k', l', w. repeat split; [right; assumption | assumption | assumption | assumption].
-  - destruct (IH st m t src port i Hi) as (k' & l' & w & Hkl & Hw & Hid & Hoff).
-    exists k', l', w. repeat split; [right; assumption | assumption | assumption | assumption].
-Qed.
-
 Lemma oneshot_fired_off : forall st m t src port i, Inv2 st -> In i (snd (incoming st m t src port)) ->
   (exists r g, nth_error (resps st) (i_id i) = Some r /\ r_func r = FOneShot g) ->
   enabled (fst (incoming st m t src port)) (i_id i) = false.
@@ -252,17 +240,18 @@ Proof.
   assert (Hrf : forall id, rfunc (fst (dispatch_exact_d st m t src port)) id = rfunc st id).
   { unfold dispatch_exact_d. destruct (tbl_get (act_exact st) (m_addr m)) as [l|]; [apply call_all_tags | reflexivity]. }
   destruct (dispatch_exact_d st m t src port) as [st1 o1]. simpl in *.
-  pose proof (dispatch_keys_oneshot_off (act_match st1) st1 m t src port) as Hm.
-  destruct (dispatch_keys_spec (act_match st1) st1 m t src port) as (_ & Hmono & _).
-  unfold dispatch_match_d in *. destruct (dispatch_keys st1 (act_match st1) m t src port) as [st2 o2]. simpl in *.
+  pose proof (call_all_oneshot_off (match_list st1 m) st1 m t src port) as Hm.
+  pose proof (match_list_func st1 m) as Hlf. rewrite dmd_eq in *.
+  destruct (call_all_spec (match_list st1 m) st1 m t src port) as (_ & _ & Hmono & _).
+  destruct (call_all st1 (match_list st1 m) m t src port) as [st2 o2]. simpl in *.
   assert (Hcur : rfunc st (i_id i) = Some (FOneShot g)) by (unfold rfunc; rewrite Er; simpl; rewrite Eg; reflexivity).
   apply in_app_or in Hi as [Hi | Hi].
   - destruct (Hex i Hi) as (w & Hw & Hid & Hoff).
     pose proof (HF false w Hw) as Hok. unfold func_ok in Hok. rewrite <- Hid, Hcur in Hok. inversion Hok as [Hwf].
-    destruct (enabled st2 (i_id i)) eqn:E; [|reflexivity]. apply Hmono in E. rewrite Hid, (Hoff g (eq_sym Hwf)) in E. discriminate.
-  - destruct (Hm i Hi) as (k & l & w & Hkl & Hw & Hid & Hoff).
-    assert (Hin : In w (entries (tbl st1 true))) by (apply in_flat_map; exists (k, l); auto).
-    pose proof (HF1 true w Hin) as Hok. unfold func_ok in Hok. rewrite Hrf, <- Hid, Hcur in Hok. inversion Hok as [Hwf].
+    destruct (enabled st2 (i_id i)) eqn:E; [|reflexivity].
+    apply Hmono in E. rewrite Hid, (Hoff g (eq_sym Hwf)) in E. discriminate.
+  - destruct (Hm i Hi) as (w & Hw & Hid & Hoff).
+    pose proof (Hlf w Hw) as Hok. rewrite Hrf, <- Hid, Hcur in Hok. inversion Hok as [Hwf].
     rewrite Hid. apply (Hoff g). symmetry. assumption.
 Qed.
 
@@ -293,73 +282,3 @@ Proof.
     rewrite ?ids_at_update; reflexivity.
 Qed.
 
-(* ---- matching dispatcher: ONE registration order when a single registered path matches --------------------- *)
-Lemma enabled_matching_path_is_key : forall st id r, Inv st -> nth_error (resps st) id = Some r ->
-  r_enabled r = true -> r_matching r = true -> In (r_path r) (keys (act_match st)).
-Proof.
-  intros st id r HI Er He Hm.
-  assert (Hc : In id (cmdp st)) by (apply (inv_enabled st HI); unfold enabled; rewrite Er; assumption).
-  pose proof (inv_tbl st HI true (r_path r)) as Ht. unfold ids_at, tbl in Ht.
-  destruct (tbl_get (act_match st) (r_path r)) as [l|] eqn:Eg.
-  - clear - Eg. induction (act_match st) as [| [k' l'] t IHt]; simpl in *; [discriminate|].
-    destruct (bytes_eqb (r_path r) k') eqn:E; [left; symmetry; apply bytes_eqb_eq; assumption | right; apply IHt; assumption].
-  - exfalso. assert (Hin : In id (filter (has_key st true (r_path r)) (cmdp st))).
-    { apply filter_In. split; [assumption|]. unfold has_key. rewrite Er, Hm, bytes_eqb_refl. reflexivity. }
-    rewrite <- Ht in Hin. contradiction.
-Qed.
-
-Lemma flat_map_single : forall (f : list Z -> list nat) ks k0, NoDup ks ->
-  (forall k, In k ks -> k <> k0 -> f k = []) ->
-  (In k0 ks -> flat_map f ks = f k0) /\ (~ In k0 ks -> flat_map f ks = []).
-Proof.
-  induction ks as [| k ks IH]; intros k0 Hnd Hz; [split; [contradiction | reflexivity]|].
-  inversion Hnd as [| ? ? Hnin Hnd']; subst. cbn [flat_map].
-  assert (Hz' : forall k', In k' ks -> k' <> k0 -> f k' = []) by (intros k' Hk Hk0; apply Hz; [right; assumption | assumption]).
-  destruct (IH k0 Hnd' Hz') as [IH1 IH2].
-  destruct (list_eq_dec Z.eq_dec k k0) as [-> | Hne].
-  - split; [|intro Hn; exfalso; apply Hn; left; reflexivity].
-    intros _. rewrite (IH2 Hnin), app_nil_r. reflexivity.
-  - rewrite (Hz k (or_introl eq_refl) Hne). cbn [app]. split.
-    + intros [Hi | Hi]; [congruence | apply IH1; assumption].
-    + intro Hn. apply IH2. intro Hi. apply Hn. right. assumption.
-Qed.
-
-Lemma match_single_path : forall st m t src port k0, Inv st ->
-  (forall k, In k (keys (act_match st)) -> matches m k = true -> k = k0) ->
-  map i_id (snd (dispatch_match_d st m t src port)) = filter (fires_m st m src port) (cmdp st).
-Proof.
-  intros st m t src port k0 HI Hone. rewrite match_ids by assumption.
-  (* pointwise: fires_m is "the single path matches and the responder sits on it" *)
-  assert (HP : forall id, In id (cmdp st) ->
-            fires_m st m src port id = matches m k0 && fires st true k0 m src port id).
-  { intros id Hc. apply (inv_enabled st HI) in Hc. unfold enabled in Hc. unfold fires_m, fires.
-    destruct (nth_error (resps st) id) as [r|] eqn:Er; [|rewrite andb_false_r; reflexivity].
-    rewrite Hc. simpl. destruct (r_matching r) eqn:Em; simpl; [|rewrite andb_false_r; reflexivity].
-    pose proof (enabled_matching_path_is_key st id r HI Er Hc Em) as Hk.
-    destruct (bytes_eqb k0 (r_path r)) eqn:Eb.
-    - apply bytes_eqb_eq in Eb. subst k0. simpl. reflexivity.
-    - simpl. rewrite andb_false_r. destruct (matches m (r_path r)) eqn:Emt; [|reflexivity].
-      exfalso. apply bytes_eqb_neq in Eb. apply Eb. symmetry. apply Hone; assumption. }
-  rewrite (filter_ext_in_l _ _ _ (cmdp st) HP).
-  set (g := fun k => if matches m k then filter (fires st true k m src port) (cmdp st) else []).
-  assert (Hz : forall k, In k (keys (act_match st)) -> k <> k0 -> g k = []).
-  { intros k Hk Hne. unfold g. destruct (matches m k) eqn:Emk; [|reflexivity]. exfalso. apply Hne. apply Hone; assumption. }
-  destruct (flat_map_single g (keys (act_match st)) k0 (inv_keys st HI true) Hz) as [H1 H2].
-  assert (Hfalse : forall l : list nat, filter (fun _ => false) l = []) by (induction l; simpl; auto).
-  destruct (matches m k0) eqn:Em0.
-  - destruct (in_dec (list_eq_dec Z.eq_dec) k0 (keys (act_match st))) as [Hin | Hnin].
-    + rewrite (H1 Hin). unfold g. rewrite Em0. reflexivity.
-    + rewrite (H2 Hnin). symmetry.
-      (* nobody sits on a path that is not a key *)
-      assert (Hnone : forall id, In id (cmdp st) -> true && fires st true k0 m src port id = false).
-      { intros id' Hc'. apply (inv_enabled st HI) in Hc'. unfold enabled in Hc'. unfold fires. simpl.
-        destruct (nth_error (resps st) id') as [r|] eqn:Er; [|reflexivity].
-        rewrite Hc'. simpl. destruct (r_matching r) eqn:Emr; simpl; [|reflexivity].
-        destruct (bytes_eqb k0 (r_path r)) eqn:Eb; [|reflexivity].
-        exfalso. apply bytes_eqb_eq in Eb. subst k0. apply Hnin. eapply enabled_matching_path_is_key; eassumption. }
-      rewrite (filter_ext_in_l _ _ (fun _ => false) (cmdp st) Hnone). apply Hfalse.
-  - simpl. rewrite Hfalse.
-    destruct (in_dec (list_eq_dec Z.eq_dec) k0 (keys (act_match st))) as [Hin | Hnin].
-    + rewrite (H1 Hin). unfold g. rewrite Em0. reflexivity.
-    + apply (H2 Hnin).
-Qed.
